@@ -3,6 +3,7 @@
 package main
 
 import (
+	"os"
 	"context"
 	"fmt"
 	"net/http"
@@ -128,6 +129,7 @@ type vRotIdP struct {
 	succ     int
 	reuse    int
 	reusable bool // refresh tokens are not rotated out: any earlier token is still accepted
+	omitID   func(n int) bool // the n-th successful refresh response carries no id_token (allowed by OIDC core 12.2)
 }
 
 func (r *vRotIdP) handler(email string) func(url.Values) (int, string, string, error) {
@@ -144,6 +146,9 @@ func (r *vRotIdP) handler(email string) func(url.Values) (int, string, string, e
 		r.cur++
 		r.succ++
 		id := vJWT(vKeyRSA, "RS256", vClaims(email, nil))
+		if r.omitID != nil && r.omitID(r.cur) {
+			id = ""
+		}
 		return 200, "application/json", vTokenJSON(id, fmt.Sprintf("at%d", r.cur), fmt.Sprintf("rt%d", r.cur), 3600), nil
 	}
 }
@@ -314,6 +319,7 @@ func driveC12(t *testing.T, out *vEmitter) {
 
 	// ---- sequential behaviours: provider variants ----
 	vC12Sequential(t, out)
+	vC12Chain(t, out)
 	// ---- the real Redis client and lock, truly concurrent ----
 	vC12RealRedis(t, out)
 }
@@ -557,8 +563,23 @@ func vC12RealRedis(t *testing.T, out *vEmitter) {
 		}
 		rot := &vRotIdP{}
 		h := rot.handler("user@example.com")
+		latency := 30 * time.Millisecond // well inside the lock's duration; lets the others queue up
+		if round == rounds-1 {
+			// a slow provider that still answers within the refresh lock's duration (the constant as regenerated
+			// from pkg/middleware/stored_session.go): the waiting requests must outlast it
+			lockDur := 2 * time.Second
+			if v, err := strconv.ParseInt(os.Getenv("VERIF_CONST_refresh_lock_duration_ns"), 10, 64); err == nil && v > 0 {
+				lockDur = time.Duration(v)
+			}
+			if lockDur > 20*time.Second {
+				lockDur = 20 * time.Second
+			}
+			latency = lockDur - 400*time.Millisecond
+			n = 3
+			out.Stat("real_redis_slow_provider_ms", int(latency/time.Millisecond))
+		}
 		e.idp.onToken = func(f url.Values) (int, string, string, error) {
-			time.Sleep(30 * time.Millisecond) // well inside the lock's duration; lets the others queue up
+			time.Sleep(latency)
 			return h(f)
 		}
 		b := e.newBrowser("https://app.example.com")
@@ -598,6 +619,80 @@ func vC12RealRedis(t *testing.T, out *vEmitter) {
 			} else if tok != "at1" {
 				out.Violation("refresh/stale-tokens-upstream", "a request was forwarded upstream with tokens other than the refreshed ones",
 					map[string]interface{}{"request": i, "token": tok, "store": "miniredis+redislock"})
+			}
+		}
+	}
+}
+
+
+// vC12Chain: one session refreshed several times in a row at a provider with single-use (rotating) refresh
+// tokens, whose refresh responses carry an id_token always / never / every other time.  After every refresh
+// that request's upstream headers and the stored session carry the new access AND refresh token, so the next
+// refresh presents a token the provider still accepts.
+func vC12Chain(t *testing.T, out *vEmitter) {
+	patterns := []struct {
+		name string
+		omit func(int) bool
+	}{
+		{"id-token-always", func(int) bool { return false }},
+		{"id-token-never", func(int) bool { return true }},
+		{"id-token-alternating", func(n int) bool { return n%2 == 1 }},
+	}
+	for _, redis := range []bool{false, true} {
+		e := vNewEnv(t, vEnvCfg{oidc: true, redis: redis, mod: func(o *options.Options) {
+			o.Cookie.Refresh = time.Hour
+			o.Providers[0].OIDCConfig.InsecureSkipNonce = true
+			o.InjectRequestHeaders = append(o.InjectRequestHeaders,
+				options.Header{Name: "X-Forwarded-Access-Token", Values: []options.HeaderValue{{ClaimSource: &options.ClaimSource{Claim: "access_token"}}}},
+				options.Header{Name: "X-Verif-Refresh-Token", Values: []options.HeaderValue{{ClaimSource: &options.ClaimSource{Claim: "refresh_token"}}}})
+		}})
+		for _, pt := range patterns {
+			rot := &vRotIdP{omitID: pt.omit}
+			e.idp.onToken = rot.handler("user@example.com")
+			b := e.newBrowser("https://app.example.com")
+			b.seedSession("user@example.com", 2*time.Hour, 20) // stale, refresh token rt0
+			for k := 1; k <= 4; k++ {
+				res := b.get(fmt.Sprintf("/chain%d", k))
+				wantAT, wantRT := fmt.Sprintf("at%d", k), fmt.Sprintf("rt%d", k)
+				outcome := "unauth"
+				gotAT, gotRT := "", ""
+				if res.Hit() {
+					gotAT = res.Upstream[0].Header.Get("X-Forwarded-Access-Token")
+					gotRT = res.Upstream[0].Header.Get("X-Verif-Refresh-Token")
+					outcome = "old"
+					if gotAT == wantAT {
+						outcome = "new"
+					}
+				}
+				out.Case("chain/"+pt.name, true, vL(vY(outcome), vBool(rot.succ+rot.reuse >= k), vBool(false)),
+					vL("seq_refresh", vBool(true), vBool(true), vBool(true), vBool(true), vBool(true)))
+				out.Stat("chain_steps", 1)
+				req := httptest.NewRequest("GET", "https://app.example.com/", nil)
+				if ch := b.cookieHeader("/"); ch != "" {
+					req.Header.Set("Cookie", ch)
+				}
+				stored, err := e.p.sessionStore.Load(req)
+				if !res.Hit() {
+					out.Violation("refresh/not-served-after-refresh", "a stale session with a refresh token the provider accepts was not refreshed and served",
+						map[string]interface{}{"redis": redis, "provider": pt.name, "refresh_number": k, "status": res.Status, "provider_rejections": rot.reuse})
+					break
+				}
+				if gotAT != wantAT || gotRT != wantRT {
+					out.Violation("refresh/new-tokens-not-carried", "after a refresh the request's upstream headers do not carry the new tokens",
+						map[string]interface{}{"redis": redis, "provider": pt.name, "refresh_number": k, "access": gotAT, "refresh": gotRT, "want_access": wantAT, "want_refresh": wantRT})
+				}
+				if err != nil || stored == nil || stored.AccessToken != wantAT || stored.RefreshToken != wantRT {
+					got := map[string]interface{}{"redis": redis, "provider": pt.name, "refresh_number": k, "error": fmt.Sprint(err)}
+					if stored != nil {
+						got["access"], got["refresh"] = stored.AccessToken, stored.RefreshToken
+					}
+					out.Violation("refresh/new-tokens-not-persisted", "after a refresh the stored session does not carry the new tokens", got)
+					break
+				}
+				// age the stored session so that the next request refreshes again
+				old := time.Now().Add(-2 * time.Hour)
+				stored.CreatedAt = &old
+				vReseed(b, stored)
 			}
 		}
 	}
